@@ -38,7 +38,8 @@ class EvWalker(lib_core.CoreWalker):
 
 
 def run(ctx):
-    fbs = ctx.facts(['K17', 'K20'], kinds=('probe', 'lib'), only=r'p_coro\.cpp$|p_async\.cpp$|src/algo|src/util', tests=r'/test/')
+    fbs = ctx.facts(['K17', 'K20'], kinds=('probe', 'lib'), only=r'p_coro\.cpp$|p_async\.cpp$|src/algo|src/util', tests=r'/test/',
+                    quick_tests=r'unit/algo/wait_group\.cpp|unit/coro/await_group\.cpp')
     rw = ctx.rule('R-WORD', 'protocol of OneShotEvent::_head and of the counter', minimum=8)
     ro = ctx.rule('R-ORDER', 'role minimum orders of _head / count', minimum=8)
     rc = ctx.rule('R-CASKIND', 'waiter push: weak CAS in a loop re-testing all-done', minimum=1)
@@ -56,7 +57,7 @@ def run(ctx):
     rsh = ctx.rule('R-SHAPE', 'SetImpl calls every waiter of the detached list exactly once and loses none (shape '
                    'analysis over list segments, all lengths)', minimum=1)
     rcf = ctx.rule('R-CASFRESH', 'every retry of a compare-exchange re-tests the refreshed expected value against the '
-                   'sentinels the first attempt tested', minimum=1)
+                   'sentinels the first attempt tested', minimum=0)
     for cfg, fb in sorted(fbs.items()):
         lib_order.check_cas_fresh(ctx, fb, rcf, lambda f: 'OneShotEvent' in f.qn or 'one_shot_event' in f.file)
         lib_shape.check(ctx, fb, rsh, lambda qn: 'SetImpl' in qn and 'BaseCore' not in qn, 1)
